@@ -55,6 +55,12 @@ func (st *State) load(addr Value, t types.Type) Value {
 		for i := range vals {
 			gs[i] = st.b.Eq(p.Idx, st.b.Const(64, uint64(lo+i)))
 		}
+		if _, isPtr := t.Underlying().(*types.Pointer); isPtr {
+			// a pointer selected by a symbolic index: follow each feasible target on its own path
+			// (a guarded pointer would turn every later access into an n-way case split)
+			k := st.choose(gs)
+			return vals[k]
+		}
 		return st.muxValues(gs, vals)
 	case Mux:
 		return st.mapMux(p, func(a Value) Value { return st.load(a, t) })
@@ -596,7 +602,7 @@ func (st *State) evalValue(fr *Frame, instr ssa.Value) Value {
 			panic(st.unsupported("buffered channel"))
 		}
 		st.serial++
-		return &ChanObj{Serial: st.serial, SendG: nil, ET: in.Type().Underlying().(*types.Chan).Elem()}
+		return &ChanObj{Serial: st.serial, ET: in.Type().Underlying().(*types.Chan).Elem()}
 	case *ssa.MakeSlice:
 		n := st.concInt(st.get(fr, in.Len), in.Len.Type(), "make length")
 		c := st.concInt(st.get(fr, in.Cap), in.Cap.Type(), "make capacity")
@@ -725,6 +731,18 @@ func (st *State) indexAddr(fr *Frame, in *ssa.IndexAddr) Value {
 			}
 			at := in.X.Type().Underlying().(*types.Pointer).Elem().Underlying().(*types.Array)
 			obj, base, n, es = p.Obj, p.Off, int(at.Len()), st.sizeOf(at.Elem())
+		case SymPtr:
+			// element of an array inside a symbolically indexed element: only a concrete inner index
+			at := in.X.Type().Underlying().(*types.Pointer).Elem().Underlying().(*types.Array)
+			c, ok := idx.ConstVal()
+			if !ok {
+				c = st.concretize(idx, "inner index below a symbolic index")
+			}
+			if int64(c) < 0 || int64(c) >= at.Len() {
+				st.certainPanic(fmt.Sprintf("index out of range [%d] with length %d", int64(c), at.Len()))
+			}
+			p.Sub += int(c) * st.sizeOf(at.Elem())
+			return p
 		default:
 			panic(st.unsupported(fmt.Sprintf("index address of %T", v)))
 		}
@@ -733,6 +751,9 @@ func (st *State) indexAddr(fr *Frame, in *ssa.IndexAddr) Value {
 				st.certainPanic(fmt.Sprintf("index out of range [%d] with length %d", int64(c), n))
 			}
 			return Ptr{obj, base + int(c)*es}
+		}
+		if n == 0 {
+			st.certainPanic("index out of range with length 0")
 		}
 		st.panicIf(b.Ule(b.Const(64, uint64(n)), idx), fmt.Sprintf("index out of range (length %d)", n))
 		if n == 1 {
